@@ -54,12 +54,12 @@ theorem blockCount_exact (n : Nat) (hn : 0 < n) (hal : n % 512 = 0) :
 
 /-- every parameter record: name length (negative = locked), group id, upper-cased name, then the
     offset to the next record, which is exactly 2 + the number of bytes that follow it -/
-theorem paramRecord_offset (p : Param) (gid : Int) (b : Bytes) (slot : Option Nat) (h : p.write gid = .ok (b, slot)) :
+theorem paramRecord_offset (p : Param) (gid : Int) (ip : Bool) (b : Bytes) (slot : Option Nat) (h : p.write gid ip = .ok (b, slot)) :
     ∃ rest : Bytes,
       b = [low8 (if p.locked then -(p.name.length : Int) else p.name.length), low8 gid] ++ toUpper p.name
             ++ le16 (2 + (rest.length : Int)) ++ rest := by
   unfold Param.write at h
-  cases hd : p.writeData with
+  cases hd : p.writeData ip with
   | throw e => simp [hd] at h
   | ub k => simp [hd] at h
   | ok r =>
